@@ -51,6 +51,7 @@ type GenOpts struct {
 	// FailingSecondMsg: price transactions may carry a second message with the validator's next
 	// nonce that fails in execution (C13); AvoidFailingSecondMsg, if set, keeps them out again
 	// (exclusion by construction of a listed finding) and counts how often.
+	TwoSignerPct          int // share of the price transactions that carry the same report by two validators, each signing itself
 	FailingSecondMsg      bool
 	AvoidFailingSecondMsg *int
 	// SimPct > 0: that share of the transactions is not delivered but run as a node-local
@@ -793,6 +794,19 @@ func (m *Machine) drawPrice(t *rapid.T, g *GenOpts, a *Action) {
 	if nd == 2 && a.Dets[0] == a.Dets[1] {
 		a.Dets[1] = a.Dets[1] + "0"
 	}
+	if g.TwoSignerPct > 0 && len(m.Keys) > 1 && pct(t, g.TwoSignerPct, "two-signer?") {
+		// an honest two-signer transaction: the same report by two validators, each signing itself
+		b := (a.Key + 1 + uniform(t, len(m.Keys)-1, "cosigner")) % len(m.Keys)
+		a.Co, a.CoOwn, a.CoNonce = b+1, true, 1
+		if n, found := c.App.OracleKeeper.GetNonce(ctx, sdk.ConsAddress(m.Keys[b].ConsAddr()).String()); found {
+			for _, e := range n.NonceList {
+				if e.FeederID == a.Feeder {
+					a.CoNonce = int32(e.Value) + 1
+				}
+			}
+		}
+		return
+	}
 	if os.Getenv("VERIF_FORCE_SECOND_MSG") == "often" && pct(t, 15, "forced-second?") {
 		// investigation aid: the failing-second-message variant at a high rate in any world
 		a.Twice, a.N, a.Hostile = true, 1, true
@@ -807,6 +821,8 @@ func (m *Machine) drawPrice(t *rapid.T, g *GenOpts, a *Action) {
 			if len(m.Keys) > 1 {
 				b := (a.Key + 1 + uniform(t, len(m.Keys)-1, "cosigner")) % len(m.Keys)
 				a.Co = b + 1
+				// (half of the time, where two-signer transactions are modelled: the second validator signs itself)
+				a.CoOwn = g.TwoSignerPct > 0 && pct(t, 50, "honest-cosigner?")
 				a.CoNonce = 1
 				if n, found := c.App.OracleKeeper.GetNonce(ctx, sdk.ConsAddress(m.Keys[b].ConsAddr()).String()); found {
 					for _, e := range n.NonceList {
